@@ -3,6 +3,7 @@ PROP = dict(
     lean_modules=["TongoProofs.C04"],
     gen=["TlbTypes", "IntTypes"],
     spec_ops=("tlb.spec", "tlb.extmsg"),
+    info_ops=("tlb.canoninfo",),  # statistics: how many real cells pass the model's canonicity check (a canonical cell the Go code does not reproduce fails op tlb.canon)
     line_timeout="60s",
     rule="primitives EXHAUSTIVELY over the widths: UintN and IntN for every N in 1..64 and 128/256/257 at "
          "0/1/max/top-bit/min/-1 plus random values, VarUInteger n for every n in 1..32 at every byte length "
@@ -34,11 +35,19 @@ PROP = dict(
         "and reader (wallet.MessageV5Beta); go.w5beta checks on every run that the two agree cell for cell",
     ],
     assumptions=[
-        "ideal bit-list level (C06 owns the refinement of boc.BitString); minBitsRequired's de Bruijn table is "
+        "ideal bit-list level: the primitive theorems (writeUint_spec …) are about the IDEAL writers of "
+        "TongoModel/Tlb/Basic.lean (Builder.writeUint is by definition the write of natToBits) read against an "
+        "arithmetic meaning of the bits (value mod 2^n, two's complement value, minimal VarUInteger length); that the "
+        "ideal writer is what Go's byte-level code does (WriteUint's shift loop, WriteInt's sign handling) is C06's "
+        "refinement, COMPOSED here: writeUint_on_bitstring / writeInt_on_bitstring (C03.builder_refines_bitstring + "
+        "C06.op_refines); minBitsRequired's de Bruijn table is "
         "tied to bitWidth only through the exhaustive VarUInteger/Anycast lines, its proof is C06's",
-        "dictionaries: `HashmapE n X` of the schema is hme_empty$0 / hme_root$1 + C05's tree (Hashmap.marshal) over "
-        "the keys and values AS THE SCHEMA SERIALISES THEM; that marshal writes a valid hm_edge / hmn_leaf / "
-        "hmn_fork tree with the shortest labels is C05's encode_sorted_tree / labels_shortest, not re-proved here",
+        "dictionaries: the schema side specDict of `HashmapE n X` is hme_empty$0 / hme_root$1 + C05's Hashmap.marshal "
+        "over the keys and values AS THE SCHEMA SERIALISES THEM — the same FUNCTION the implementation model calls, so "
+        "impl_eq_spec says nothing new about the tree itself. What that function is worth as a specification is "
+        "stated declaratively by specDict_is_hashmap_tree: the root is HTree.toCell of a VALID Hashmap n X (C05's "
+        "HTree.Valid) whose meaning is the given entries in ascending key order; that the labels are TON's shortest "
+        "form is C05's labels_shortest; the comparison with real dictionaries is C05's go.hm.reencode",
         "highload v2: the conversion of the message list into the dictionary (key i, value mode:uint8 ^message) is "
         "shared between the spec node and the model (hlToDict)",
     ],
@@ -51,13 +60,26 @@ PROP = dict(
         "HASH_UPDATE, Transaction; OutList, W5ExtendedAction, wallet v5r1 and v5 beta bodies (+ WalletV5ID), highload v2 body; HashmapE "
         "generically (impl_eq_spec_hashmapE). Outside: block-level structures (BlockInfo, ValueFlow, ShardState, "
         "…: decode models only), config parameters other than 5, abi message bodies",
-        "reencode_real is proved for cells produced by the encoder; for chain cells it is checked (go.redec on "
-        "every real transaction and message), not proved (see C03 ReencodeHash)",
-        "the transcription of block.tlb is trusted",
+        "the clause `decoded from real chain data and encoded again reproduces the original cell hash wherever the "
+        "encoding is unique`: PROVED as reencode_chain_cell (= C03.reencode_canonical_cell) with uniqueness made a "
+        "decidable predicate on the cell (canonicalCell: minimal VarUInteger/Grams prefixes, shortest dictionary labels, "
+        "children consumed, ordinary cells), for Message / StateInit / Transaction / Account / CurrencyCollection and "
+        "every other descriptor the checker walks; that the cells of the test blocks satisfy the predicate is CHECKED "
+        "on every run (tlb.canon / tlb.canoninfo in C03's run: 593 of 593 real transactions and messages), not "
+        "proved; where the encoding is not unique the hash changes (C03 noncanonical_cell_witnesses). "
+        "reencode_own_output_message (formerly reencode_real) is only about the encoder's own output",
+        "the transcription of block.tlb is trusted; it is COARSER than block.tlb in three respects: MsgAddressInt and "
+        "MsgAddressExt are one node (.msgAddress: all four constructors are accepted wherever an address stands, as "
+        "in the Go type), the schema's constraints ({n <= 30}, depth >= 1, the implicit-parameter equations) are not "
+        "transcribed (they restrict the domain, not the layout), and the tables of the enumerations (AccountStatus, "
+        "AccStatusChange, ComputeSkipReason) are hand-copied constants of the schema text",
     ],
-    level_text="Machine-checked (Lean 4), all widths and values: writeUint_spec (0..64 bits), writeInt_spec "
+    level_text="Machine-checked (Lean 4), all widths and values, for the 40 structures with a transcribed schema "
+               "(not: block-level structures, config parameters other than 5, abi bodies). Primitive layer, about the "
+               "ideal writers against the arithmetic meaning of the bits: writeUint_spec (0..64 bits), writeInt_spec "
                "(two's complement, 1..64), writeBigUint_spec / writeBigInt_spec (every width), varuint_minimal "
-               "(minimal byte length, every n), limUint_width, unary_spec, sumtag_spec. Structure layer: "
+               "(minimal byte length, every n), limUint_width, unary_spec, sumtag_spec; composed with C06 down to the "
+               "byte-level model of the Go writers: writeUint_on_bitstring, writeInt_on_bitstring. Structure layer: "
                "impl_eq_spec — for every regenerated descriptor accepted by the decidable matcher against the "
                "transcribed schema (field order BY NAME: the Go field at each position must carry the schema's "
                "field name modulo snake/Camel case and a 4-entry alias table; widths; tags; references), the "
@@ -66,7 +88,9 @@ PROP = dict(
                "and the highload payload included); impl_eq_spec_<S> is "
                "decided by the kernel for 40 structures on the descriptors regenerated from the Go source on "
                "every run (a swapped field / wrong width / wrong tag breaks it); ext_message_layout for "
-               "ton.CreateExternalMessage. Tie: ~11 000 lines per quick run where the cell of the real "
+               "ton.CreateExternalMessage; specDict_is_hashmap_tree (the dictionary part of the schema side is the "
+               "cell tree of a valid Hashmap with the given meaning); reencode_chain_cell (a chain cell that is "
+               "canonical in the decidable sense is rebuilt bit for bit: same hash). Tie: ~11 000 lines per quick run where the cell of the real "
                "tlb.Marshal must equal the spec encoder's (exhaustive over primitive widths and VarUInteger "
                "lengths), plus model=code lines and the re-encoding of every real transaction/message with the "
                "non-canonical ones listed.",
